@@ -57,6 +57,10 @@ def machine_jobs(tier, roots=None, kinds=("entry", "scanner")):
         if "scanner" in kinds:
             jobs += sj
             results += sr
+        if "bytesfn" in kinds:
+            bj = R.bytesfn_jobs(prog, cfg, prof)
+            jobs += bj
+            results += R.run_jobs(bj, budget=QUICK_BUDGET, th=th)
         if "entry" in kinds:
             ej = R.entry_jobs(cfg, prof, roots=roots)
             if failed and tier == "thorough":
@@ -121,7 +125,7 @@ def C01(tier):
     from . import rules
     def extra(c, jobs, results):
         rules.c01_structure(c, tier)
-    return machine_check("C01", tier, explanation=(
+    return machine_check("C01", tier, kinds=("entry", "scanner"), explanation=(
         "abstract interpretation of the MIR of every entry point (all option values, all capacities, all buffer lengths/contents) and of "
         "every scanner backend body: each raw dereference, pointer offset, from_raw_parts, SIMD load, unchecked index, Assert terminator, "
         "panic call and target-feature call is an obligation discharged on every abstract path; plus acyclic call graph and progress rule"),
@@ -483,3 +487,13 @@ def C02(tier):
 
 
 ALL["C02"] = C02
+
+
+def X_benchable(tier):
+    """Not a property check (outside the quantifier of every given property): the doc(hidden)
+    `_benchable` functions from an arbitrary cursor state.  Reports the known observation that
+    parse_method/parse_token hand uncommitted, unvalidated bytes to from_utf8_unchecked."""
+    return machine_check("X-benchable", tier, kinds=("bytesfn",), explanation="out-of-scope exploration of the doc(hidden) cursor API")
+
+
+EXTRA = {"benchable": X_benchable}
